@@ -50,6 +50,12 @@ def build(c, clock, sym_state=True):
         c.assume(t._telomere_length <= maxops)
         t._operations_count = c.int("ops_count", 0, 1 << 16)
         t._error_count = c.int("error_count", 0, 1 << 16)
+        # the recorded senescence reason: set while SENESCENT, kept through apoptosis/termination,
+        # cleared by renew/reset
+        if ph is S:
+            t._senescence_reason = T.SenescenceReason.TELOMERE_DEPLETION
+        elif ph in (AP, TM):
+            t._senescence_reason = c.choice("reason", [None, T.SenescenceReason.ERROR_ACCUMULATION])
         if ph is N:
             started = False
         elif ph in (A, S):
@@ -188,7 +194,46 @@ def hayflick(maxops, k):
     return h
 
 
+def history(maxops, k):
+    """every call order from the constructor (legal transitions, absorbing end states, tick results)"""
+    def h(c):
+        clock = SymClock(c)
+        T.datetime = FakeDatetime(clock)
+        stream = []
+        t = Telomere(max_operations=maxops, error_threshold=c.int("error_threshold", 1, 3), allow_renewal=c.choice("allow_renewal", [True, False]),
+                     on_phase_change=lambda o, n: stream.append((o, n)), silent=True)
+        if c.mode == "sym":
+            shim_locks(t)
+        seq = []
+        for i in range(k):
+            op = c.choice(f"op{i}", OPS)
+            seq.append(op)
+            pre = snap(t)
+            del stream[:]
+            info = {"seq": list(seq), "pre_phase": pre["phase"].name}
+            st, r = call_returns(c, "C09.a", op, getattr(t, op))
+            if st == "hang":
+                return
+            if st == "raised":
+                c.fail("C09.a", {"what": "call raised", "raised": repr(r), **info})
+                return
+            post = post_common(c, t, op, pre, stream, info)
+            if op == "tick":
+                c.check("C09.d", eq(r, post["phase"] is A), {"what": "tick result != (ACTIVE afterwards)", **info})
+                if pre["phase"] in (AP, TM):
+                    c.check("C09.c", b_and(r is False, eq(post["length"], pre["length"]), eq(post["ops"], pre["ops"])), {"what": "dead lifecycle ticked", **info})
+            if op == "renew" and ((not t.allow_renewal) or pre["phase"] is TM):
+                c.check("C09.f", b_and(r is False, post["phase"] is pre["phase"], eq(post["length"], pre["length"])), {"what": "refused renewal changed state", **info})
+        c.observe("phase", t._phase.name)
+        c.observe("seq", seq)
+    return h
+
+
 HARNESSES = {
+    "history": {"make": history, "witness_every": 13,
+                "jobs": lambda tier: ([{"maxops": 1, "k": 4}, {"maxops": 3, "k": 4}] if tier == "quick" else
+                                      [{"maxops": 1, "k": 5}, {"maxops": 2, "k": 5}, {"maxops": 12, "k": 5}, {"maxops": 1, "k": 6}]),
+                "clauses": ["C09.a", "C09.b", "C09.d", "C09.e"]},
     "step": {"make": step, "jobs": lambda tier: [{}], "witness_every": 5,
              "clauses": ["C09.a", "C09.b", "C09.c", "C09.d", "C09.e", "C09.f", "C09.g", "C09.h"]},
     "hayflick": {"make": hayflick, "witness_every": 9,
@@ -204,8 +249,8 @@ META = {
         "technique": "symbolic execution of telomere.py (state injection, symbolic clock, lock shim raising Deadlock), z3 per path; legal-transition relation checked on the callback stream",
     },
     "files": ["operon_ai/state/telomere.py"],
-    "bounds": {"quick": {"step": "one call of any of 9 methods from any state: max_operations 1..4096, error_threshold 1..64, counters <= 2^16, cost/amount 0..8192, 4 limit configurations", "hayflick": "max_operations 1..3, k=max+2 calls after start"},
-               "thorough": {"step": "as quick", "hayflick": "max_operations in {1,2,3,4,5,8,12}, k<=7"}},
+    "bounds": {"quick": {"step": "one call of any of 9 methods from any state: max_operations 1..4096, error_threshold 1..64, counters <= 2^16, cost/amount 0..8192, 4 limit configurations", "hayflick": "max_operations 1..3, k=max+2 calls after start", "history": "k=4 calls over all 9 methods from the constructor, max_operations 1 and 3"},
+               "thorough": {"step": "as quick", "hayflick": "max_operations in {1,2,3,4,5,8,12}, k<=7", "history": "k=5 (max_operations 1,2,12), k=6 (max_operations 1)"}},
     "outside": ["time passing inside a single call", "on_senescence/on_phase_change callbacks that re-enter the lifecycle", "get_status/get_statistics (read-only)", "reset() is treated as re-initialisation"],
     "float_argument": "F-cmp: length/max <= 0.1 and errors/ops >= 0.5 are single quotients of integers < 2^16 against decimal literals; compared exactly by cross-multiplication",
     "assumptions": ["telomere.datetime replaced by a symbolic clock (non-decreasing integer ms)", "threading.Lock/RLock replaced by SLock/SRLock of the same kind in symbolic mode; real locks + watchdog in replay",
